@@ -820,7 +820,7 @@ def run_unit(uid, tier='quick', repo=REPO, keep=None, seed=0):
         # replay search for failed clauses
         if r['status'] == 'violation' and u.has_replay:
             r['replay'] = run_replay(u, gen_path, scratch, list(an['failed'].keys()) + [p['id'] for p in an['panic']], seed)
-        if r['status'] == 'violation' and scaffolding_lost and os.environ.get('VX_SCAFFOLD_POLICY', 'report') == 'undecided':
+        if r['status'] == 'violation' and scaffolding_lost and os.environ.get('VX_SCAFFOLD_POLICY', 'undecided') == 'undecided':
             found = any((v or {}).get('found') for v in (r.get('replay') or {}).values() if isinstance(v, dict))
             if not found:
                 # (optional, conservative policy; default is to REPORT: a contract clause that was discharged on the unchanged
